@@ -26,6 +26,7 @@ func main() {
 	logic := flag.String("logic", "", "set-logic in fresh mode")
 	slow := flag.Int("slow", 0, "log queries slower than this many ms")
 	maxsteps := flag.Int("maxsteps", 20000000, "per-path step budget")
+	quickms := flag.Int("quickms", 1000, "incremental solver timeout before falling back to one-shot")
 	params := flag.String("p", "", "instance parameters k=v,k=v")
 	flag.Parse()
 
@@ -56,6 +57,7 @@ func main() {
 	eng.LogSMT = *logsmt
 	eng.SolverBin = *solver
 	eng.Fresh = *fresh
+	eng.QuickMs = *quickms
 	eng.SlowMs = *slow
 	eng.SetLogic = *logic
 	for _, kv := range strings.Split(*params, ",") {
